@@ -2,7 +2,8 @@
 (* Validates recorded transformation attempts (c26_recorder) against the     *)
 (* actions of TransTxn.  File: [sessions |-> <<session>>], session =          *)
 (* [id, closed, lines]; a line is                                              *)
-(*    <<"B", seq, trans, text, syms, tree>>      Begin(trans) with fp = ...   *)
+(*    <<"B", seq, trans, text, syms, tree, c>>   Begin(trans) with fp = ...   *)
+(*         (c = 1: no edit since the previous top-level attempt ended)        *)
 (*    <<"E", seq, outcome, text, syms, tree>>    outcome "ok"      -> Commit  *)
 (*                                                       "refused" -> Refuse  *)
 (*                                                       "crash"   -> Crash   *)
@@ -43,7 +44,7 @@ IsEvent(kind) == pos <= Len(Lines) /\ Lines[pos][1] = kind
 BeginStep ==
   /\ IsEvent("B")
   /\ LET l == Lines[pos] IN
-     /\ (Sessions[cid].closed /\ stack = <<>> /\ ~Unknown(fp) /\ fp # FpOf(l))
+     /\ (Sessions[cid].closed /\ l[7] = 1 /\ stack = <<>> /\ fp # FpOf(l))
            => Verdict(l, "Discontinuity", [depth |-> 0])
      /\ stack' = Append(stack, M!Open([seq |-> l[2], name |-> l[3]], FpOf(l),
                                        "mutating"))
